@@ -4,9 +4,10 @@ from contracts import model as M
 from contracts import roms_forcing as F
 from contracts import release_init as RI
 from contracts import roms_init as I
+from contracts import roms_steps as RS
 from contracts import timekeeper as K
 
-UNITS = [K.TKInit(True), K.TKInit(False)] + list(K.TK_MISSING) + [I.GridInit(True), I.GridInit(False)] + list(I.SCAN_UNITS) + list(I.SCAN_READ_UNITS) + [F.ForcingStepsCoverage(), F.ForcingInit(), M.ModelInit(False), M.ModelInit(True)] + [u for u in RI.RELEASE_INIT_UNITS if "no row" in u.unit_name() or "clean_position" in u.unit_name() or "read_release_file" in u.unit_name()] + [u for u in M.LOADER_UNITS if u.unit_name().startswith("model.load_module")] + [u for u in CF.v2_units() if u.missing] + list(CF.CONFIGURE_UNITS)
+UNITS = [K.TKInit(True), K.TKInit(False)] + list(K.TK_MISSING) + [I.GridInit(True), I.GridInit(False)] + list(I.SCAN_UNITS) + list(I.SCAN_READ_UNITS) + list(RS.STEP_TABLE_UNITS) + [F.ForcingStepsCoverage(), F.ForcingInit(), M.ModelInit(False), M.ModelInit(True)] + [u for u in RI.RELEASE_INIT_UNITS if "no row" in u.unit_name() or "clean_position" in u.unit_name() or "read_release_file" in u.unit_name()] + [u for u in M.LOADER_UNITS if u.unit_name().startswith("model.load_module")] + [u for u in CF.v2_units() if u.missing] + list(CF.CONFIGURE_UNITS)
 LEMMAS = []
 NATIVE = [dict(name="every single fault injected into 8 base scenarios (real configure + Model)", harness="refusals_bounded", kind="bounded", timeout=3000)]
 LEVEL = "other"
